@@ -21,29 +21,48 @@ import (
 var (
 	envMu    sync.Mutex
 	envs     = map[string]*hx.RouterEnv{}
+	envUsers = map[string]int{}
 	envOrder []string
 )
 
+// getEnv returns the (shared) router environment of a configuration and marks it in use; the caller calls putEnv when
+// its case is over.  An environment is only evicted while no case is using it (a case waiting 6 s for its SERVFAIL
+// must not lose its router because eight other configurations were started meanwhile).
 func getEnv(spec string) (*hx.RouterEnv, error) {
 	envMu.Lock()
 	defer envMu.Unlock()
 	if e, ok := envs[spec]; ok {
+		envUsers[spec]++
 		return e, nil
 	}
 	router.VerifQuiet()
 	if len(envOrder) >= 6 {
-		old := envOrder[0]
-		envOrder = envOrder[1:]
-		envs[old].Close()
-		delete(envs, old)
+		for i, old := range envOrder {
+			if envUsers[old] == 0 {
+				envOrder = append(envOrder[:i:i], envOrder[i+1:]...)
+				envs[old].Close()
+				delete(envs, old)
+				delete(envUsers, old)
+				break
+			}
+		}
 	}
 	e, err := hx.NewRouterEnv(spec)
 	if err != nil {
 		return nil, err
 	}
 	envs[spec] = e
+	envUsers[spec] = 1
 	envOrder = append(envOrder, spec)
 	return e, nil
+}
+
+func putEnv(spec string) {
+	envMu.Lock()
+	defer envMu.Unlock()
+	if envUsers[spec] > 0 {
+		envUsers[spec]--
+	}
 }
 
 func init() {
@@ -66,6 +85,7 @@ func runHandle(id string, parts []string) string {
 	if err != nil {
 		return "HARNESS-ERROR env: " + strings.ReplaceAll(err.Error(), " ", "_")
 	}
+	defer putEnv(f["cfg"])
 	q, err := hx.UnHex(f["q"])
 	if err != nil {
 		return "HARNESS-ERROR bad hex"
@@ -150,6 +170,7 @@ func runWedge(id string, parts []string) string {
 	if err != nil {
 		return "HARNESS-ERROR env: " + strings.ReplaceAll(err.Error(), " ", "_")
 	}
+	defer putEnv(f["cfg"])
 	bad, _ := hx.UnHex(f["bad"])
 	q, _ := hx.UnHex(f["q"])
 	l := f["l"]
